@@ -6,9 +6,12 @@ Anchors:
 * `analysis/node.rs`: `ResultNode::num_splits`, `ResultNode::split`, `NodeSplitIterator::next`
 * `analysis/stateless_tokenizer.rs`: `split_path`
 * `analysis/mlist.rs`: `MorphemeList::split_into` (`assign_input`: the output list shares the
-  parent's input buffer, so the same offset tables are used)
+  parent's input buffer, so the same offset tables are used; the units are read with the LIST's
+  subset, which `collect_results` copies from the tokenizer), `MorphemeList::lookup` (nodes read with
+  the subset of the call, the list's own subset left as it was — variant `LookupV`)
 * `analysis/stateful_tokenizer.rs`: `create`, `set_mode`, `set_subset`, `resolve_best_path` (word
-  info of a path node is loaded with the tokenizer's subset)
+  info of a path node is loaded with the tokenizer's subset; its BYTE range is computed from its
+  character range: `to_curr_byte_idx(begin/end) as u16` = `mod_c2b[·]`)
 * `dic/subset.rs`: `InfoSubset::normalize`
 * `dic/read/word_info.rs`: `WordInfoParser::parse` (early exit when the requested set is exhausted,
   "light" fields are read unconditionally when reached)
@@ -17,7 +20,8 @@ Anchors:
 * `dic/build/lexicon.rs`: `write_word_info` stores `surface.len()` (the KEY's byte length) as
   `head_word_length` and the split ids as parsed (`U<n>` ↦ dictionary 1) — entered as data
   (`Entry`), computed by the harness from the CSV rows.
-* `analysis/morpheme.rs`: `begin`/`end` (`to_orig_byte_idx`).
+* `analysis/morpheme.rs`: `begin`/`end` (`to_orig_byte_idx`: the character route) and `surface`
+  (`orig_slice(bytes_range)`: the byte route, with the two `is_char_boundary` debug assertions).
 
 Only the fields that splitting observes are kept: key byte length and the two split lists.
 -/
@@ -208,40 +212,57 @@ structure Node where
   info : Info
 deriving Repr, DecidableEq
 
-/-- a path element as observed on the mode C result: `syn` = the word info was synthesised
-(OOV node of `resolve_best_path`, node made by `concat_nodes` / `concat_oov_nodes`) -/
+/-- `as u16` -/
+def asU16 (x : Nat) : Nat := x % 65536
+
+/-- a path element as observed on the mode C result: character range and word id; `syn` = the word
+info was synthesised (OOV node of `resolve_best_path`, node made by `concat_nodes` /
+`concat_oov_nodes`).  The byte range is NOT entered: the model computes it as the code does. -/
 structure RawNode where
   cb : Nat
   ce : Nat
-  bb : Nat
-  be : Nat
   wid : Nat
   syn : Bool
 deriving Repr
 
-/-- word info of a path node (`resolve_best_path`; `?` propagates an error) -/
-def resolveNode (lex : Lex) (s : Subset) (r : RawNode) : Outcome Node :=
-  if r.syn || isOov r.wid then .ok ⟨r.cb, r.ce, r.bb, r.be, r.wid, Info.empty⟩
-  else
-    match getWordInfoSubset lex r.wid s with
-    | .ok i => .ok ⟨r.cb, r.ce, r.bb, r.be, r.wid, i⟩
+/-- `InputBuffer::to_curr_byte_idx(i) as u16` = `mod_c2b[i] as u16` (index panic explicit) -/
+def currByteIdx (c2b : List Nat) (i : Nat) : Outcome Nat :=
+  match c2b[i]? with
+  | none => .panic "mod_c2b: index out of bounds"
+  | some b => .ok (asU16 b)
+
+/-- one iteration of `resolve_best_path`: word info (`Default` for OOV / synthesised nodes, else
+read with the tokenizer's subset, `?` propagates an error), then
+`byte_begin = to_curr_byte_idx(inner.begin())`, `byte_end = to_curr_byte_idx(inner.end())`.
+(`concat_nodes` / `concat_oov_nodes` copy the byte range of the first and last joined node, which
+is again `mod_c2b` of the character range.) -/
+def resolveNode (lex : Lex) (s : Subset) (c2b : List Nat) (r : RawNode) : Outcome Node :=
+  let info : Outcome Info :=
+    if r.syn || isOov r.wid then .ok Info.empty else getWordInfoSubset lex r.wid s
+  match info with
+  | .ok i =>
+    match currByteIdx c2b r.cb with
+    | .ok bb =>
+      match currByteIdx c2b r.ce with
+      | .ok be => .ok ⟨r.cb, r.ce, bb, be, r.wid, i⟩
+      | .err k => .err k
+      | .panic w => .panic w
     | .err k => .err k
     | .panic w => .panic w
+  | .err k => .err k
+  | .panic w => .panic w
 
-def resolvePath (lex : Lex) (s : Subset) : List RawNode → Outcome (List Node)
+def resolvePath (lex : Lex) (s : Subset) (c2b : List Nat) : List RawNode → Outcome (List Node)
   | [] => .ok []
   | r :: rest =>
-    match resolveNode lex s r with
+    match resolveNode lex s c2b r with
     | .ok n =>
-      match resolvePath lex s rest with
+      match resolvePath lex s c2b rest with
       | .ok ns => .ok (n :: ns)
       | .err k => .err k
       | .panic w => .panic w
     | .err k => .err k
     | .panic w => .panic w
-
-/-- `as u16` -/
-def asU16 (x : Nat) : Nat := x % 65536
 
 /-- the split list of a node for a mode (`a_unit_split` / `b_unit_split`) -/
 def splitsOf (n : Node) : Mode → List Nat
@@ -342,6 +363,34 @@ def splitInto (cx : Ctx) (m : Mode) (n : Node) : Outcome (Bool × List Node) :=
     | .err k => .err k
     | .panic w => .panic w
 
+/-- which `MorphemeList::lookup` is modelled: the code as it stands leaves `InputPart.subset` of the
+list untouched (`cur`); the proposed repair records the subset of the call in it (`fix`) -/
+inductive LookupV where
+  | cur | fix
+deriving Repr, DecidableEq
+
+/-- the word infos `MorphemeList::lookup(query, subset)` reads for the matching entries (`?`
+propagates an error), as nodes `0..end_chars` / bytes `0..query.len()` -/
+def lookupNodes (lex : Lex) (sl : Subset) (ce be : Nat) : List Nat → Outcome (List Node)
+  | [] => .ok []
+  | wid :: rest =>
+    match getWordInfoSubset lex wid sl with
+    | .ok info =>
+      match lookupNodes lex sl ce be rest with
+      | .ok r => .ok (⟨0, ce, 0, be, wid, info⟩ :: r)
+      | .err k => .err k
+      | .panic w => .panic w
+    | .err k => .err k
+    | .panic w => .panic w
+
+/-- `MorphemeList::lookup` on a list whose subset is `ls`: the nodes and the list's subset afterwards —
+the subset `split_into` will read the units of these nodes with -/
+def lookup (lv : LookupV) (lex : Lex) (ls sl : Subset) (ce be : Nat) (wids : List Nat) : Outcome (List Node × Subset) :=
+  match lookupNodes lex sl ce be wids with
+  | .ok ns => .ok (ns, match lv with | .cur => ls | .fix => sl)
+  | .err k => .err k
+  | .panic w => .panic w
+
 /-- `Morpheme::begin` / `end`: `m2o[mod_c2b[char index]]` -/
 def origIdx (c2b m2o : List Nat) (c : Nat) : Outcome Nat :=
   match c2b[c]? with
@@ -350,6 +399,25 @@ def origIdx (c2b m2o : List Nat) (c : Nat) : Outcome Nat :=
     match m2o[b]? with
     | none => .panic "m2o: index out of bounds"
     | some o => .ok o
+
+/-- `str::is_char_boundary` of the rewritten text expressed with the tables: byte offset `i` is a
+boundary iff `mod_c2b[mod_b2c[i]] = i` (the sentinel entries cover `i = len`) -/
+def onBoundary (b2c c2b : List Nat) (i : Nat) : Bool :=
+  match b2c[i]? with
+  | none => false
+  | some c => c2b[c]? == some i
+
+/-- `Morpheme::surface` = `orig_slice(bytes_range)`: the two debug assertions (`is_char_boundary` of
+the rewritten text at both ends: offset `i` is a boundary iff `mod_c2b[mod_b2c[i]] = i`), then
+`original[m2o[bb]..m2o[be]]` (`to_orig`; a backwards range panics in the slice).  Returns the
+byte range of the surface in the original text. -/
+def surfaceRange (b2c c2b m2o : List Nat) (bb be : Nat) : Outcome (Nat × Nat) :=
+  if !onBoundary b2c c2b bb then .panic "start is off char boundary"
+  else if !onBoundary b2c c2b be then .panic "end is off char boundary"
+  else
+    match m2o[bb]?, m2o[be]? with
+    | some ob, some oe => if ob ≤ oe then .ok (ob, oe) else .panic "slice index starts after end"
+    | _, _ => .panic "m2o: index out of bounds"
 
 /-! ## tokenizer histories -/
 
@@ -408,22 +476,27 @@ def lex? (s : List Char) : Option Lex :=
 
 def raw? (s : List Char) : Option RawNode :=
   match natTuple? s with
-  | some [cb, ce, bb, be, wid, k] => some ⟨cb, ce, bb, be, wid, k != 0⟩
+  | some [cb, ce, wid, k] => some ⟨cb, ce, wid, k != 0⟩
   | _ => none
 
-def showNode (c2b m2o : List Nat) (n : Node) : Outcome String :=
+/-- what the harness observes of one morpheme: node ranges, word id, `begin()`/`end()` (character
+route) and the range of `surface()` (byte route; `P` when it panics) -/
+def showNode (b2c c2b m2o : List Nat) (n : Node) : Outcome String :=
   match origIdx c2b m2o n.cb, origIdx c2b m2o n.ce with
   | .ok ob, .ok oe =>
-    .ok (joinWith ":" [toString n.cb, toString n.ce, toString n.bb, toString n.be, toString n.wid, toString ob, toString oe])
+    let sf := match surfaceRange b2c c2b m2o n.bb n.be with
+      | .ok (sb, se) => toString sb ++ ":" ++ toString se
+      | _ => "P"
+    .ok (joinWith ":" [toString n.cb, toString n.ce, toString n.bb, toString n.be, toString n.wid, toString ob, toString oe, sf])
   | .panic w, _ => .panic w
   | _, .panic w => .panic w
   | .err k, _ => .err k
   | _, .err k => .err k
 
-def showNodes (c2b m2o : List Nat) : List Node → Outcome (List String)
+def showNodes (b2c c2b m2o : List Nat) : List Node → Outcome (List String)
   | [] => .ok []
   | n :: rest =>
-    match showNode c2b m2o n, showNodes c2b m2o rest with
+    match showNode b2c c2b m2o n, showNodes b2c c2b m2o rest with
     | .ok s, .ok r => .ok (s :: r)
     | .panic w, _ => .panic w
     | _, .panic w => .panic w
@@ -440,32 +513,59 @@ def handleSplit (toks : List (List Char)) : String :=
     let td := (runOps opsd (create .C) []).1
     let tc := (runOps opsc (create .C) []).1
     let direct : Outcome (List Node) :=
-      match resolvePath lex td.subset raws with
+      match resolvePath lex td.subset c2b raws with
       | .ok p => splitPath ⟨v, lex, td.subset, b2c, c2b⟩ td.mode p
       | .err k => .err k
       | .panic w => .panic w
     let dstr :=
       match direct with
       | .ok ns =>
-        match showNodes c2b m2o ns with
+        match showNodes b2c c2b m2o ns with
         | .ok ss => toString (toBits td.subset) ++ ":" ++ modeStr td.mode ++ "|" ++ joinWith "," ss
         | _ => "PANIC"
       | .err k => "err:" ++ k
       | .panic _ => "PANIC"
     let ods := rawsc.map (fun r =>
-      match resolveNode lex tc.subset r with
+      match resolveNode lex tc.subset c2b r with
       | .ok n =>
         match splitInto ⟨v, lex, tc.subset, b2c, c2b⟩ odm n with
         | .ok (flag, us) =>
-          match showNodes c2b m2o us with
+          match showNodes b2c c2b m2o us with
           | .ok ss => (if flag then "T" else "F") ++ joinWith "," ss
           | _ => "P"
         | .err _ => "E"
         | .panic _ => "P"
       | .err _ => "E"
       | .panic _ => "P")
-    "ok direct=" ++ dstr ++ " od=" ++ joinWith ";" ods
+    -- `collect_results` / `swap_result`: `*subset = self.subset` — the list carries the subset of the
+    -- tokenizer at the time of the call; `split_into` reads the units with it (`self.subset()`)
+    "ok direct=" ++ dstr ++ " ls=" ++ toString (toBits tc.subset) ++ " od=" ++ joinWith ";" ods
   | _, _, _, _, _, _, _, _, _ => "bad-case"
+
+/-- `C09 lookup ls=<list subset before> sl=<subset of the call> odm=<mode> nodes=<ids found> ce= be=` + lexicon and
+tables of the query: the list's subset afterwards and `split_into` of every node found -/
+def handleLookup (toks : List (List Char)) : String :=
+  match (kv? toks "ls").bind nat?, (kv? toks "sl").bind nat?, (kv? toks "odm").bind mode?,
+        (kv? toks "lex").bind lex?, (kv? toks "b2c").bind natList?, (kv? toks "c2b").bind natList?,
+        (kv? toks "m2o").bind natList?, (kv? toks "nodes").bind natList?,
+        (kv? toks "ce").bind nat?, (kv? toks "be").bind nat? with
+  | some ls, some sl, some odm, some lex, some b2c, some c2b, some m2o, some wids, some ce, some be =>
+    let v : Variant := if (kv? toks "d6fix") == some ['1'] then .d6fix else .cur
+    let lv : LookupV := if (kv? toks "lkfix") == some ['1'] then .fix else .cur
+    match lookup lv lex (ofBits ls) (ofBits sl) ce be wids with
+    | .ok (ns, after) =>
+      let ods := ns.map (fun n =>
+        match splitInto ⟨v, lex, after, b2c, c2b⟩ odm n with
+        | .ok (flag, us) =>
+          match showNodes b2c c2b m2o us with
+          | .ok ss => (if flag then "T" else "F") ++ joinWith "," ss
+          | _ => "P"
+        | .err _ => "E"
+        | .panic _ => "P")
+      "ok ls=" ++ toString (toBits after) ++ " od=" ++ joinWith ";" ods
+    | .err _ => "err"
+    | .panic _ => "PANIC"
+  | _, _, _, _, _, _, _, _, _, _ => "bad-case"
 
 def showInfo (i : Info) : String :=
   toString i.hwl ++ ":" ++ joinWith "/" (i.a.map toString) ++ ":" ++ joinWith "/" (i.b.map toString)
@@ -494,6 +594,7 @@ def handleSubset (toks : List (List Char)) : String :=
 def handle (op : List Char) (toks : List (List Char)) : String :=
   match String.ofList op with
   | "split" => handleSplit toks
+  | "lookup" => handleLookup toks
   | "winfo" => handleWinfo toks
   | "subset" => handleSubset toks
   | _ => "bad-op"
